@@ -92,15 +92,29 @@ fn keys(v: &Value) -> Vec<String> {
 fn round_trip<S: Sc, T: Serialize + DeserializeOwned>(ctx: &mut Ctx, kind: &str, k: usize, n_random: usize, seed: &mut u64,
     mk: &dyn Fn(&[S]) -> T, un: &dyn Fn(&T) -> Vec<S>, shape: &dyn Fn(&Value, &[S]) -> bool) {
     for c in comps::<S>(k, n_random, seed) {
-        let t = mk(&c);
-        let v = serde_json::to_value(&t).expect("serialize");
-        let back: Result<T, _> = serde_json::from_value(v.clone());
-        let ok = match &back {
-            Ok(b) => un(b).iter().zip(c.iter()).all(|(x, y)| x.bits() == y.bits()),
-            Err(_) => false,
-        };
-        ctx.round.rec(ok, || format!("{}<{}> {:?} -> {} -> {:?}", kind, S::NAME, c, v, back.as_ref().map(|b| un(b)).ok()));
-        ctx.shape.rec(shape(&v, &c), || format!("{}<{}> structure {}", kind, S::NAME, v));
+        // a panic anywhere in serialise / deserialise / inspect is a failed round trip, not a crash of the check
+        let old = std::panic::take_hook();
+        std::panic::set_hook(Box::new(|_| {}));
+        let r = std::panic::catch_unwind(std::panic::AssertUnwindSafe(|| {
+            let t = mk(&c);
+            let v = serde_json::to_value(&t).expect("serialize");
+            let back: Result<T, _> = serde_json::from_value(v.clone());
+            let ok = match &back {
+                Ok(b) => un(b).iter().zip(c.iter()).all(|(x, y)| x.bits() == y.bits()),
+                Err(_) => false,
+            };
+            let desc = format!("{}<{}> {:?} -> {} -> {:?}", kind, S::NAME, c, v, back.as_ref().map(|b| un(b)).ok());
+            let sh = shape(&v, &c);
+            (ok, desc, sh, format!("{}<{}> structure {}", kind, S::NAME, v))
+        }));
+        std::panic::set_hook(old);
+        match r {
+            Ok((ok, desc, sh, sdesc)) => {
+                ctx.round.rec(ok, || desc);
+                ctx.shape.rec(sh, || sdesc);
+            }
+            Err(_) => ctx.round.rec(false, || format!("{}<{}> {:?}: serialise / deserialise panicked or was rejected", kind, S::NAME, c)),
+        }
     }
 }
 
@@ -200,6 +214,16 @@ fn decomposed_keys(ctx: &mut Ctx) {
             "scale" => format!("\"scale\":{}", i),
             "rot" => format!("\"rot\":{{\"v\":{{\"x\":0.0,\"y\":0.0,\"z\":0.0}},\"s\":{}}}", i),
             "disp" => format!("\"disp\":{{\"x\":{},\"y\":0.0,\"z\":0.0}}", i),
+            other if other.contains('@') => {
+                // `alias@shape`: the key is `alias`, the value has the shape of the named field
+                let (alias, shape) = other.split_once('@').unwrap();
+                let body = match shape {
+                    "rot" => format!("{{\"v\":{{\"x\":0.0,\"y\":0.0,\"z\":0.0}},\"s\":{}}}", i),
+                    "disp" => format!("{{\"x\":{},\"y\":0.0,\"z\":0.0}}", i),
+                    _ => format!("{}", i),
+                };
+                format!("\"{}\":{}", alias, body)
+            }
             other => format!("\"{}\":{}", other, i),
         }
     };
@@ -226,6 +250,18 @@ fn decomposed_keys(ctx: &mut Ctx) {
         }
     }
     seqs.push(vec![]);
+    // plausible aliases and near-misses of the three field names are unknown keys like any other; each is tried
+    // with a value of every field's shape, in addition to and instead of the field it resembles
+    for alias in ["rotation", "translation", "scaling", "position", "orientation", "displacement", "s", "r", "d", "Rot", "Disp",
+                  "SCALE", "rot ", " disp", "mat", "v", "x", "_scale", "scale2", "transform", "Rotation", "offset", "pos", "t", "q"] {
+        for shape in ["@scale", "@rot", "@disp"] {
+            let key: &'static str = Box::leak(format!("{}{}", alias, shape).into_boxed_str());
+            seqs.push(vec!["scale", "rot", "disp", key]);
+            seqs.push(vec![key, "scale", "rot", "disp"]);
+            let repl: Vec<&str> = names.iter().map(|n| if format!("@{}", n) == shape { key } else { *n }).collect();
+            seqs.push(repl);
+        }
+    }
     seqs.push(vec!["Scale", "rot", "disp"]);
     seqs.push(vec!["scale", "rot", "disp", "scale", "rot", "disp"]);
     for s in seqs {
@@ -244,7 +280,7 @@ fn decomposed_keys(ctx: &mut Ctx) {
             "err".to_string()
         };
         ctx.dec.rec(ans == want, || format!("keys {:?}: got {} want {}", s, ans, want));
-        let _ = writeln!(ctx.mq, "mq n.dec {} => {}", s.join(" "), ans);
+        let _ = writeln!(ctx.mq, "mq n.dec {} => {}", s.iter().map(|k| k.split('@').next().unwrap().replace(' ', "_")).collect::<Vec<_>>().join(" "), ans);
     }
 }
 
